@@ -457,11 +457,31 @@ func (h *circRun) errFor(m map[int]error, k int, mk func() error) error {
 }
 
 func (h *circRun) runErr(k int) error {
-	return h.errFor(h.errs, k, func() error { return fmt.Errorf("run-error-%d", k) })
+	return h.errFor(h.errs, k, func() error {
+		if k%4 == 3 {
+			// an ordinary failure: the caller's error type has a BadRequest method, and it answers false
+			return &userErr{msg: fmt.Sprintf("run-error-%d", k), bad: false}
+		}
+		return fmt.Errorf("run-error-%d", k)
+	})
 }
 func (h *circRun) badErr(k int) error {
-	return h.errFor(h.bads, k, func() error { return &circuit.SimpleBadRequest{Err: fmt.Errorf("bad-%d", k)} })
+	return h.errFor(h.bads, k, func() error {
+		if k%3 == 2 {
+			return &userErr{msg: fmt.Sprintf("bad-%d", k), bad: true} // a bad request of the caller's own type
+		}
+		return &circuit.SimpleBadRequest{Err: fmt.Errorf("bad-%d", k)}
+	})
 }
+
+// userErr is an error type of the caller's own that implements circuit.BadRequest.
+type userErr struct {
+	msg string
+	bad bool
+}
+
+func (u *userErr) Error() string    { return u.msg }
+func (u *userErr) BadRequest() bool { return u.bad }
 func (h *circRun) wrapErr(k int) error {
 	// a bad request somewhere in the error's chain or tree: wrapped once, joined with another error, or one of two %w
 	return h.errFor(h.wraps, k, func() error {
